@@ -9,18 +9,24 @@ def sumLen (ws : List Bytes) : Nat := (ws.map List.length).sum
 /-- the response body of the attempt exceeds the configured maximum (a maximum `≤ 0` is "no limit") -/
 def overLimit (cfg : Cfg) (a : Attempt) : Prop := cfg.maxResp > 0 ∧ (sumLen a.writes : Int) > cfg.maxResp
 
-/-- the status captured for the attempt: the chosen one; 200 once the handler wrote without choosing; else 0 -/
+/-- the status captured for the attempt: the last one chosen; 200 once the handler wrote without having chosen; else 0 -/
 def capCode (a : Attempt) : Nat :=
-  if a.writes = [] then a.status.getD 0 else if a.status.getD 0 = 0 then 200 else a.status.getD 0
+  match a.lateStatus with
+  | some c => c
+  | none => if a.writes = [] then a.status.getD 0 else if a.status.getD 0 = 0 then 200 else a.status.getD 0
 
 /-- the status delivered for a final attempt -/
 def finalStatus (a : Attempt) : Nat := if capCode a = 0 then 200 else capCode a
 
-/-- the response headers the attempt set -/
-def respHeaderOf (a : Attempt) : Header := a.respHdr.foldl (fun h e => Header.add h e.1 e.2) []
+/-- the response headers the attempt set (before or after its writes) -/
+def respHeaderOf (a : Attempt) : Header :=
+  a.lateHdr.foldl (fun h e => Header.add h e.1 e.2) (a.respHdr.foldl (fun h e => Header.add h e.1 e.2) [])
+
+/-- the handler panics instead of returning -/
+def panics (a : Attempt) : Prop := a.panic = true
 
 /-- the attempt hijacks the connection and the server's writer allows it -/
-def hijackEff (cfg : Cfg) (a : Attempt) : Prop := a.hijack = true ∧ cfg.canHijack = true
+def hijackEff (cfg : Cfg) (a : Attempt) : Prop := a.panic = false ∧ a.hijack = true ∧ cfg.canHijack = true
 
 /-- the response kind carries a body (RFC 2616 §4.4 as read by `expectBody`) -/
 def bodyAllowed (method : String) (a : Attempt) : Prop :=
@@ -30,6 +36,7 @@ def bodyAllowed (method : String) (a : Attempt) : Prop :=
 
 instance (cfg : Cfg) (a : Attempt) : Decidable (overLimit cfg a) := by unfold overLimit; infer_instance
 instance (cfg : Cfg) (a : Attempt) : Decidable (hijackEff cfg a) := by unfold hijackEff; infer_instance
+instance (a : Attempt) : Decidable (panics a) := by unfold panics; infer_instance
 instance (m : String) (a : Attempt) : Decidable (bodyAllowed m a) := by unfold bodyAllowed; infer_instance
 
 /-- the request body exceeds the configured request maximum -/
